@@ -20,6 +20,7 @@ RULE = ('row cases: one (reaction row, environment, exposure, mass, rest-time li
         'evaluated on a non-zero activity; sample cases: distinct (set of atoms, abundance function) with at least '
         'one activated product')
 EXHAUSTIVE = False
+SUITE_UNDER_CONTRACTS = True   # thorough tier: the repository's tests run with the activity() postcondition attached
 TECHNIQUE = ('runtime monitoring: reference-model monitor (80-digit mpmath Bateman solutions over an independent '
              're-read of activation.dat) on every reaction row, metamorphic relation monitors, in-process '
              'postcondition on activation.activity, sys.monitoring line counters proving each branch was reached')
@@ -68,7 +69,7 @@ def setup(ctx):
     from ..ref.masses import MassModel
     T = R.ActivationTable()
     _state.update(R=R, T=T, A=A, pt=pt, mm=MassModel(), anomalies=[], probe=False,
-                  post=dict(calls=0, values=0), rows_done=set())
+                  post=dict(calls=0, values=0), rows_done=set(), suite=_suite_mode())
     pt.elements[1][2].neutron_activation   # force the lazy load before mapping
     rowmap = {}
     for (Z, Aa), lst in T.by_iso.items():
@@ -109,6 +110,14 @@ def setup(ctx):
     reach.start()
 
 
+def _suite_mode():
+    """True under `python -m pvmon.suite`: no check function drains the anomalies there, so the
+    postcondition raises and the repository test that triggered it fails."""
+    import sys
+    spec = getattr(sys.modules.get('__main__'), '__spec__', None)
+    return bool(spec and spec.name == 'pvmon.suite')
+
+
 def _post_activity(isotope, mass, env, exposure, rest_times, res):
     """Postcondition of activation.activity: every value >= 0 (and not NaN); values at different
     rest times of one product are related by 2**(-dt/T_half)."""
@@ -129,7 +138,8 @@ def _post_activity(isotope, mass, env, exposure, rest_times, res):
             if not v >= 0:
                 _state['anomalies'].append(dict(kind='negative', row=row.index if row else None, j=j, value=v,
                                                 mass=mass, exposure=exposure))
-        if row is None or i0 is None:
+        thalf = row.Thalf_hrs if row is not None else getattr(ai, 'Thalf_hrs', None)
+        if not thalf or i0 is None:
             continue
         a0 = vals[i0]
         if not a0 > 0:
@@ -137,13 +147,16 @@ def _post_activity(isotope, mass, env, exposure, rest_times, res):
         for j, v in enumerate(vals):
             if j == i0:
                 continue
-            want = a0 * 2.0 ** (-(rest[j] - rest[i0]) / row.Thalf_hrs)
+            want = a0 * 2.0 ** (-(rest[j] - rest[i0]) / thalf)
             post['decay_pairs'] = post.get('decay_pairs', 0) + 1
             if want < 1e-290:
                 continue
             if abs(v - want) > 1e-12 * want:
-                _state['anomalies'].append(dict(kind='rest-decay', row=row.index, j=j, value=v, want=want,
-                                                mass=mass, exposure=exposure))
+                _state['anomalies'].append(dict(kind='rest-decay', row=row.index if row else None, j=j, value=v,
+                                                want=want, mass=mass, exposure=exposure))
+    if _state['suite'] and _state['anomalies']:
+        an, _state['anomalies'] = _state['anomalies'], []
+        raise AssertionError('pvmon C14 postcondition of activation.activity(%s, %r, ...): %r' % (isotope, mass, an[:3]))
 
 
 # ----------------------------------------------------------------------------
@@ -350,7 +363,8 @@ def _drain(ctx, case, solve_for_row):
                           % (a['value'], row.label() if row else '?'), kind='post-negative', evals=[ev] if ev else [])
         else:
             ctx.violation('postcondition: values of %s at two rest times are not related by 2^(-dt/T): %r vs %r'
-                          % (T.by_index[a['row']].label(), a['value'], a['want']), kind='post-rest-decay')
+                          % (T.by_index[a['row']].label() if a['row'] in T.by_index else '?', a['value'], a['want']),
+                          kind='post-rest-decay')
 
 
 def _rest(case, j):
@@ -681,6 +695,7 @@ def finish(ctx):
     reach.export(ctx)
     post = _state['post']
     ctx.count('postcondition.activity.calls', post['calls'])
+    ctx.count('contract.activity.postcondition_evaluations', post['calls'])
     ctx.count('postcondition.activity.values_checked', post['values'])
     ctx.count('postcondition.activity.decay_pairs_checked', post.get('decay_pairs', 0))
     for label, why in (('branch.b', "'b' branch of activity()"), ('branch.2n', "'2n' branch of activity()"),
